@@ -387,7 +387,7 @@ def run_insert(case, seed, R):
 # ---------------------------------------------------------------------------------------------
 # unit: batched stacks == per-element loop
 
-BATCH_SHAPES = [[2], [3], [2, 3], [2, 1, 2], [1], [4, 1]]
+BATCH_SHAPES = [[2], [3], [2, 3], [2, 1, 2], [1], [1, 1], [4, 1]]      # batch size 1 in two ranks: the scalar/batched branch guards
 POOL_N = N_IDX + ['a']
 
 
@@ -512,7 +512,7 @@ def plan(tier, seed):
                     for lam in (LAMS if L < 2 else [0.55]):
                         inserts.append({'layers': [list(c) for c in combo], 'sub': sub, 'amb': amb, 'lam': lam})
     batch = []
-    for shape in BATCH_SHAPES if not quick else BATCH_SHAPES[:5]:
+    for shape in BATCH_SHAPES if not quick else BATCH_SHAPES[:6]:
         for L in range(0, (3 if quick else 4) + 1):
             for off in range(0, 20 if not quick else 8):
                 for amb in AMBS:
@@ -540,7 +540,7 @@ def plan(tier, seed):
                   f'every lossless stack of 0..{Li} layers (same alphabets; 2+ layers: exit medium 1.5, wavelength 0.55) x every insert position x insert index {{1.38, 2.3}}: a zero-thickness layer changes neither r nor t; '
                   'a half-wave-at-that-angle absentee (d = l / (2 n cos th), skipped when evanescent) leaves R, |t|^2 and r unchanged; all aoi x pol'),
         ScopeUnit('batch', batch, run_batch,
-                  'array-valued index/thickness of shapes {(2,),(3,),(2,3),(2,1,2),(1,)' + ('' if quick else ',(4,1)') + f'}} x 0..{3 if quick else 4} layers x 8+ alphabet offsets (every batch element a different stack, '
+                  'array-valued index/thickness of shapes {(2,),(3,),(2,3),(2,1,2),(1,),(1,1)' + ('' if quick else ',(4,1)') + f'}} x 0..{3 if quick else 4} layers x 8+ alphabet offsets (every batch element a different stack, '
                   'different along the batch and across layers, so batch size == entry count ("square") and != are both present) x real/complex x list-of-pairs and ndarray input forms x aoi x pol: '
                   'batched r, t entry-wise equal to the per-element loop; plus one seeded generic representative per shape/length'),
     ]
